@@ -37,7 +37,11 @@ def lens_specs(v):
     singlet = [S('conic', R=R, k=-0.3, mat=g, t=5.0, stop=True), S('sphere', R=-R, mat='air', t=1.55 * R)]
     asp = [S('asph', R=R, k=0.0, coeffs=[1e-6, 0.0], mat=g, t=6.0, stop=True), S('plane', mat='air', t=4.0), S('sphere', R=-2 * R, mat=g, t=3.0),
            S('sphere', R=-1.1 * R, mat='air', t=1.2 * R)]
-    return dict(singlet=LZ.spec(singlet, obj=LZ.INF, ap=('EPD', p['epd']), ftype='angle', fields=(0.0, p['ang']), waves=((W, True),)),
+    # xy-polynomial and Chebyshev surfaces with coefficient arrays that are not symmetric (c[i][j] != c[j][i])
+    free = [S('poly', R=2 * R, k=0.0, coeffs=[[0.0, 1e-3, 2e-4], [2e-3, 1e-4, 0.0], [5e-4, 0.0, 0.0]], mat=g, t=5.0, stop=True),
+            S('cheb', R=-3 * R, k=0.0, coeffs=[[0.0, 0.02, 0.004], [0.03, 0.005, 0.0]], norm=[150.0, 120.0], mat='air', t=1.4 * R)]
+    return dict(freeform=LZ.spec(free, obj=LZ.INF, ap=('EPD', p['epd']), ftype='angle', fields=(0.0, p['ang']), waves=((W, True),)),
+                singlet=LZ.spec(singlet, obj=LZ.INF, ap=('EPD', p['epd']), ftype='angle', fields=(0.0, p['ang']), waves=((W, True),)),
                 asphere4=LZ.spec(asp, obj=p['od'][0] * 2, ap=('EPD', p['epd']), ftype='object_height', fields=(0.0, p['h']), waves=((W, True),)))
 
 
@@ -58,8 +62,17 @@ def pert_sets(lens):
             'tilt+decenter': [('tilt', dict(surface_number=2, axis='x'), None, (-0.01, 0.02, 'abs')),
                               ('decenter', dict(surface_number=2, axis='y'), None, (-0.1, 0.2, 'abs'))],
             'index': [('index', dict(surface_number=1, wavelength=W), None, (1.50, 1.53, 'abs'))],
+            # perturbations whose merit stays below the compensator's convergence tolerance (1e-5)
+            'tiny': [('thickness', dict(surface_number=1), None, (4.988, 5.012, 'abs')), ('radius', dict(surface_number=1), None, (0.99995, 1.00005, 'rel'))],
             'three': [('radius', dict(surface_number=1), None, (0.99, 1.02, 'rel')), ('radius', dict(surface_number=2), None, (0.98, 1.01, 'rel')),
                       ('thickness', dict(surface_number=1), None, (4.9, 5.2, 'abs'))],
+        }
+    if lens == 'freeform':
+        return {
+            'polynomial-coeff': [('polynomial_coeff', dict(surface_number=1, coeff_index=[2, 0]), None, (2e-4, 9e-4, 'abs')),
+                                 ('radius', dict(surface_number=2), None, (0.98, 1.02, 'rel'))],
+            'chebyshev-coeff': [('chebyshev_coeff', dict(surface_number=2, coeff_index=[0, 2]), None, (0.002, 0.007, 'abs')),
+                                ('polynomial_coeff', dict(surface_number=1, coeff_index=[0, 1]), None, (5e-4, 2e-3, 'abs'))],
         }
     return {
         'asphere-coeff': [('asphere_coeff', dict(surface_number=1, coeff_number=0), None, (-2e-6, 3e-6, 'abs')),
@@ -156,6 +169,25 @@ def rederive_row(unit, spec, plist, row_values, comp_value):
     return [operand_value(o, ot, data) for ot, data in OPERANDS[unit['operands']]]
 
 
+def rederive_row_compensated(unit, spec, plist, row_values):
+    """Fresh nominal lens, the recorded perturbation values, then the same compensation run directly (the compensator
+    optimiser with the run's operands, targets taken on the nominal lens) -> (operand values, compensator value)."""
+    from optiland.optimization.variable import Variable
+    from optiland.tolerancing.core import Tolerancing
+    o = LZ.build(spec)
+    tol = Tolerancing(o)
+    for ot, data in OPERANDS[unit['operands']]:
+        tol.add_operand(ot, dict(data, optic=o))
+    tol.add_compensator('thickness', surface_number=len(spec['surfs']))
+    for (vt, kw, nom), val in zip(plist, row_values):
+        if val is not None:
+            Variable(o, vt, apply_scaling=False, **kw).update(val)
+    tol.compensator.operands = tol.operands
+    tol.compensator.run()
+    cv = float(np.ravel(tol.compensator.variables[0].value)[0])
+    return [operand_value(o, ot, data) for ot, data in OPERANDS[unit['operands']]], cv
+
+
 def check_table(part, unit, spec, plist, df, runkind, det, cond):
     names = [f'{i}: {ot.replace("_", " ")}' for i, (ot, _) in enumerate(OPERANDS[unit['operands']])]
     nominal_ops = rederive_row(unit, spec, plist, [None] * len(plist), None)
@@ -189,6 +221,16 @@ def check_table(part, unit, spec, plist, df, runkind, det, cond):
             if not same:
                 part.violation(PID, 'row-equals-fresh-lens-with-recorded-perturbation', f'{"SensitivityAnalysis" if runkind == "sa" else "MonteCarlo"}.run',
                                cond, dict(det, row=ri, operand=nm, perturbation_values=vals, compensator=comp_val), observed=g, expected=e, tol=tolr)
+        if comp_val is not None:
+            # "... followed by the same compensation": run the compensation again on the fresh copy
+            exp2, cv2 = rederive_row_compensated(unit, spec, plist, vals)
+            part.count('cmp:row-recompensated')
+            for nm, g, e in zip(names + ['compensator value'], got + [comp_val], exp2 + [cv2]):
+                same = (math.isnan(g) and math.isnan(e)) or abs(g - e) <= 1e-6 * max(1.0, abs(e))
+                if not same:
+                    part.violation(PID, 'row-equals-fresh-lens-with-recorded-perturbation-and-same-compensation',
+                                   f'{"SensitivityAnalysis" if runkind == "sa" else "MonteCarlo"}.run', cond,
+                                   dict(det, row=ri, quantity=nm, perturbation_values=vals), observed=g, expected=e, tol=1e-6)
         if any(abs(e - n_) > 1e-9 * max(1.0, abs(n_)) for e, n_ in zip(exp, nominal_ops) if math.isfinite(e)):
             part.count('nontrivial')
         part.outcome(unit.get('lens'), unit.get('perts'), unit.get('operands'), runkind, ri, [round(g, 9) if math.isfinite(g) else 'nan' for g in got])
